@@ -364,6 +364,11 @@ impl Ast {
 // ------------------------------------------------------------------------------------
 // parser (LL(1), the grammar of DESIGN.md §2)
 
+thread_local! {
+    /// nesting limit of the reference parser (raised by callers that run on a large stack)
+    pub static MAX_DEPTH: std::cell::Cell<usize> = const { std::cell::Cell::new(100_000) };
+}
+
 pub struct P<'a> {
     t: &'a [Tok],
     i: usize,
@@ -398,7 +403,7 @@ impl<'a> P<'a> {
     }
     fn sub(&mut self) -> R<Ast> {
         self.depth += 1;
-        if self.depth > 100_000 {
+        if self.depth > MAX_DEPTH.with(|d| d.get()) {
             return Err("too deep".into());
         }
         let l = self.simple()?;
@@ -503,7 +508,7 @@ impl<'a> P<'a> {
             Some(Tok::Not) => {
                 self.i += 1;
                 self.depth += 1;
-                if self.depth > 100_000 {
+                if self.depth > MAX_DEPTH.with(|d| d.get()) {
                     return Err("too deep".into());
                 }
                 let r = self.simple()?;
